@@ -1,5 +1,8 @@
 """C05 — quantise puts every event on the grid and keeps every note well-formed."""
+import json
+
 import gens as G
+import h4seq_util as U
 import pyimpl as P
 from oracle_util import *  # noqa
 from protocol import from_real, to_real
@@ -31,7 +34,9 @@ CLAUSES = [
      ["SCoda.UtilTie.findMinimalDistance_eq", "SCoda.UtilTie.findMinimalDistance_spec", "SCoda.UtilTie.getDefaultStepSizes_of_py", "SCoda.UtilTie.default_tables_from_source"]),
 ]
 RULE = ("well-formed multi-channel note sets (<=8 notes, 3 channels, ticks<200, 30% very short notes, abutting notes) with "
-        "non-note events x step lists from the defaults and {2,3,4,5,7,12,16,24}; non-trivial = at least two notes or a note shorter than the largest step")
+        "non-note events x step lists from the defaults and {2,3,4,5,7,12,16,24}; 35% with the messages of each tick stored in random order (as "
+        "add_absolute_message leaves them); a quarter also through Sequence.quantise from every wrapper state, half of those without a step list; "
+        "non-trivial = at least two notes or a note shorter than the largest step")
 ASSUMPTIONS = ["model: SCoda.quantise (Model/Quantise.lean), tied by correspondence on the same inputs"]
 STEP_LISTS = [[24, 12, 6, 16, 8, 4], [12], [4], [2, 3], [5, 7], [16, 24], [3], [24], [6, 4], [7], [2],
               [8, 8, 12], [6, 4, 6, 9], [12, 12], [4, 6, 4], [9, 6, 9, 4]]      # duplicates, unsorted
@@ -51,18 +56,41 @@ def candidates(t, steps):
 
 def o_quantise(inp):
     a = [tuple(m) for m in inp["abs"]]
-    steps = list(inp["steps"])
+    # `steps: None` = the call without a step list (only through the wrapper variant): judged against the library's documented defaults,
+    # written down in the harness (gens.DEFAULT_STEPS), not read from the code
+    steps = list(G.DEFAULT_STEPS) if inp["steps"] is None else list(inp["steps"])
     if not steps or any(s <= 0 for s in steps):
         return [("~skip:bad-steps", "")]
-    pre, _ = abs_timed(a)
-    if wf_violations(pre) or any(on >= off for (_, _, on, off, _) in notes_of(pre)) \
-            or a != sorted(a, key=lambda m: (m[2], m[1], m[0], -1 if m[3] is None else m[3])):
-        return [("~skip:not-well-formed-sorted", "")]      # the property is about well-formed sequences
+    # the property is about well-formed sequences: judged on the canonical order of the same timed events.  The messages of one tick may be
+    # STORED in any order (add_absolute_message is an insort by time only; quantise walks the stored order): such inputs are judged too (audit O12)
+    canon = sorted(a, key=lambda m: (m[2], m[1], m[0], -1 if m[3] is None else m[3]))
+    pre, _ = abs_timed(canon)
+    if wf_violations(pre) or any(on >= off for (_, _, on, off, _) in notes_of(pre)) or [m[2] for m in a] != [m[2] for m in canon]:
+        return [("~skip:not-well-formed-sorted", "")]
     S = max(steps)
     real = [to_real(m) for m in a]
     orig_time = {id(m): m.time for m in real}
     from scoda.sequences.absolute_sequence import AbsoluteSequence
     seq = AbsoluteSequence(messages=real)
+    wrapper = None
+    if inp.get("state"):
+        # Sequence.quantise through the wrapper, from one of its freshness states (built from the harness's own relative rendering of the
+        # canonical list): the message objects judged are those of the absolute view quantise is about to work on
+        wrapper = P.seq_in_state(G.abs_to_rel(canon), inp["state"])
+        real = list(wrapper.abs._messages)
+        a = [from_real(m) for m in real]
+        if U.content_abs(a) != U.content_abs(canon):
+            return [("input-not-held", f"a Sequence built in state '{inp['state']}' does not show the generated events and duration")]
+        canon = sorted(a, key=lambda m: (m[2], m[1], m[0], -1 if m[3] is None else m[3]))
+        pre, _ = abs_timed(canon)
+        orig_time = {id(m): m.time for m in real}
+
+        class _W:          # same two-method surface as the bare view below
+            _messages = property(lambda self_: wrapper.abs._messages)
+
+            def quantise(self_, st):
+                wrapper.quantise(None if inp["steps"] is None else st)
+        seq = _W()
     if inp.get("rerun"):
         # the same object was quantised before (same step list) and its ticks were then edited in place, as the iterators allow:
         # judged against the content it has now
@@ -74,7 +102,8 @@ def o_quantise(inp):
             m.time += inp["rerun"]
         real = list(seq._messages)
         a = [from_real(m) for m in real]
-        pre, _ = abs_timed(a)
+        canon = sorted(a, key=lambda m: (m[2], m[1], m[0], -1 if m[3] is None else m[3]))
+        pre, _ = abs_timed(canon)
         if wf_violations(pre) or any(on >= off for (_, _, on, off, _) in notes_of(pre)):
             return [("~skip:not-well-formed-sorted", "")]
         orig_time = {id(m): m.time for m in real}
@@ -85,6 +114,8 @@ def o_quantise(inp):
     out_real = seq._messages
     out = [from_real(m) for m in out_real]
     fails = []
+    if wrapper is not None:
+        fails.extend(("views", d) for _, d in U.views_disagree(out, [from_real(m) for m in wrapper.rel._messages]))
     for m in out:
         if not is_int(m[TIME]):
             fails.append(("grid", f"non-integer time {m[TIME]!r}"))
@@ -101,7 +132,28 @@ def o_quantise(inp):
         for (c, p, on, off, v) in notes_of(tout):
             if not off > on:
                 fails.append(("wf", f"note ({c},{p}) has duration {off - on}"))
-    tin, _ = abs_timed(a)
+    tin = pre
+    # the same at the level of notes (the sounding result): every note of the result is an input note of its channel, pitch and velocity whose
+    # start AND end moved by at most the largest step — each input note used at most once
+    if not bad:
+        nin, nout = notes_of(tin), notes_of(tout)
+        for key in sorted({(n[0], n[1]) for n in nout}):
+            ins = sorted((n[2], n[3], n[4]) for n in nin if (n[0], n[1]) == key)
+            outs = sorted((n[2], n[3], n[4]) for n in nout if (n[0], n[1]) == key)
+            fit = lambda o, i_: o[2] == i_[2] and abs(o[0] - i_[0]) <= S and abs(o[1] - i_[1]) <= S  # noqa
+            # order-preserving injection of the result's notes into the input's notes of that key (notes of one key are disjoint in time)
+            reach = [set() for _ in range(len(outs) + 1)]
+            reach[0] = {0}
+            for oi, o in enumerate(outs):
+                for j0 in reach[oi]:
+                    for j in range(j0, len(ins)):
+                        if fit(o, ins[j]):
+                            reach[oi + 1].add(j + 1)
+                if not reach[oi + 1]:
+                    fails.append(("note-displacement", f"note {key} [{o[0]},{o[1]}) vel {o[2]} of the result is no input note moved by at most {S} at either end "
+                                                       f"(each input note used once, in order); input notes of that key: {ins}, result: {outs}"
+                                  + OBS + json.dumps({"key": list(key), "note": list(o), "input_notes": ins, "result_notes": outs})))
+                    break
     cnt_in = sorted((m[TY], m[CH]) + tuple(-1 if x is None else x for x in m[VEL:]) for t, m in tin if m[TY] not in (ON, OFF))
     cnt_out = sorted((m[TY], m[CH]) + tuple(-1 if x is None else x for x in m[VEL:]) for t, m in tout if m[TY] not in (ON, OFF))
     if cnt_in != cnt_out:
@@ -136,15 +188,66 @@ def o_quantise(inp):
     return fails
 
 
+OBS = " ## observed="
+# notes 60 [0,50) and [50,100) entered as on@0, on@50, off@50, off@100 (add_absolute_message keeps that order); quantise([4])
+D41_EXAMPLE = {"abs": [G.pm(ON, 0, 0, note=60, vel=64), G.pm(ON, 0, 50, note=60, vel=70), G.pm(OFF, 0, 50, note=60), G.pm(OFF, 0, 100, note=60)], "steps": [4]}
+
+
+def on_before_off_ticks(a):
+    """(channel, pitch, tick) where the stored list has a note-on of a key BEFORE a note-off of the same key on the same tick"""
+    hits = set()
+    for i, m in enumerate(a):
+        if m[TY] == ON:
+            for n in a[i + 1:]:
+                if n[TIME] != m[TIME]:
+                    break
+                if n[TY] == OFF and (n[CH], n[NOTE]) == (m[CH], m[NOTE]):
+                    hits.add((m[CH], m[NOTE], m[TIME]))
+    return hits
+
+
 def setup(ctx):
     ctx.oracle("quantise", o_quantise)
+
+    def kf_d41(f):
+        # two abutting notes of one key whose shared tick is STORED note-on before note-off: quantise (which walks the stored order and does not
+        # sort first) closes the first note where the second begins and then takes the first note's note-off for the second note's end.  Known
+        # only for the note-level clause, only for a key and tick stored that way, and only when the OUTCOME is that: the failing note of the
+        # result has the velocity of the input note starting on that tick, starts within a step of it and ENDS within a step of it too
+        if f["oracle"] != "quantise" or f["clause"] != "note-displacement" or OBS not in (f.get("detail") or ""):
+            return False
+        obs = json.loads(f["detail"].split(OBS, 1)[1])
+        inp = f["input"]
+        S = max(inp["steps"] or G.DEFAULT_STEPS)
+        a = [tuple(m) for m in inp["abs"]]
+        on_, off_, vel = obs["note"]
+        for (c, p, t) in on_before_off_ticks(a):
+            if [c, p] == obs["key"] and abs(on_ - t) <= S and abs(off_ - t) <= S and any(n[0] == t and n[2] == vel for n in obs["input_notes"]):
+                return True
+        return False
+    ctx.kf_predicates["D41"] = kf_d41
 
 
 def generate(ctx):
     rng = ctx.rng
+    ctx.check("quantise", D41_EXAMPLE)      # the recorded instance of the known finding
     for i in range(ctx.n(400, 15000)):
         a, notes = G.gen_wf_abs(rng, channels=(0, 1, 2))
         steps = gen_steps(rng)
+        if notes and rng.random() < 0.3:
+            # non-note events ON the tick (and channel) where a note starts or ends: ties between notes and other events
+            for _ in range(rng.randint(1, 2)):
+                nt = rng.choice(notes)
+                t = rng.choice([nt[2], nt[2] + nt[3]])
+                a.append(rng.choice([G.pm(CC, nt[0], t, vel=rng.choice([0, 64]), ctl=7), G.pm(PC, nt[0], t, prog=rng.randrange(8)),
+                                     G.pm(KEYSIG, nt[0], t, key=rng.randrange(15))]))
+            a.sort(key=lambda m: (m[2], m[1], m[0], -1 if m[3] is None else m[3]))
+            ctx.count("non-note-event-on-a-note-boundary")
+        if rng.random() < 0.35:
+            a = G.shuffle_ties(rng, a)       # entered in another order: the messages of one tick are not stored in canonical order
+            ctx.count("abs:ties-shuffled")
+            if on_before_off_ticks(a):
+                ctx.count("abs:ties-shuffled:note-on-stored-before-note-off-of-its-key")
         ctx.case((a, steps), len(notes) >= 2 or any(n[3] < max(steps) for n in notes))
         ctx.count("notes:%d" % min(len(notes), 6))
         if len({(n[1]) for n in notes}) < len({(n[0], n[1]) for n in notes}):
@@ -153,6 +256,10 @@ def generate(ctx):
         if i % 3 == 0:
             ctx.count("object-with-a-past")
             ctx.check("quantise", {"abs": a, "steps": steps, "rerun": rng.choice([1, 1, 2, 5])})
+        if i % 4 == 1:
+            # through the Sequence wrapper from any of its states; every other time without a step list (the defaults)
+            ctx.count("wrapper-states")
+            ctx.check("quantise", {"abs": a, "steps": None if i % 8 == 1 else steps, "state": rng.choice(P.SEQ_STATES)})
         ctx.corr("quantise", P.op_quantise(steps, a))
         ctx.sample({"abs": a, "steps": steps})
     if ctx.thorough:
